@@ -98,9 +98,15 @@ def run_check(mod, tier, seed):
     results = []
     if NPROC > 1 and len(packed) > 1:
         ctx = multiprocessing.get_context("fork")
+        failfast = bool(os.environ.get("VERIF_FAILFAST"))  # evaluation aid (mutation sweeps): stop at the first new violation
+        known0 = load_known() if failfast else None
         with ctx.Pool(min(NPROC, len(packed)), maxtasksperchild=1) as pool:
             for r in pool.imap_unordered(_run_task, packed, chunksize=1):
                 results.append(r)
+                if failfast and (r.get("errors") or any(match_known(prop, v["signature"], known0) is None
+                                                        for v in r.get("violations", []))):
+                    pool.terminate()
+                    break
     else:
         for p in packed:
             results.append(_run_task(p))
